@@ -3,8 +3,13 @@ EXTENDS StatCli
 \* values chosen so that no printed value is a decimal tie: thirds and sevenths
 Sp1 == [shape |-> <<5>>, cells |-> <<QI(10), QI(3), QI(2), QI(1), QI(4)>>]
 Sp2 == [shape |-> <<4>>, cells |-> <<QI(7), QI(5), QI(1), QI(2)>>]
-MCSpectra == {Sp1, Sp2}
+\* two populations: every ordered selection of up to three of the statistics that read counts (sum, s, pi_xy) and of those that
+\* read frequencies (f2, fst) - what one statistic needs done to the spectrum must not leak into another column
+Sp3 == [shape |-> <<3, 4>>, cells |-> <<QI(11), QI(3), QI(2), QI(7), QI(5), QI(13), QI(1), QI(2), QI(3), QI(1), QI(5), QI(17)>>]
+MCSpectra == {Sp1, Sp2, Sp3}
 Names == {"sum", "s", "pi", "theta"}
-MCStatSeqs == UNION {{q \in [1..n -> Names] : \A a, b \in 1..n : a # b => q[a] # q[b]} : n \in 1..3}
+Names2 == {"sum", "s", "pi_xy", "f2", "fst"}
+DistinctSeqsOf(N) == UNION {{q \in [1..n -> N] : \A a, b \in 1..n : a # b => q[a] # q[b]} : n \in 1..3}
+MCStatSeqs == DistinctSeqsOf(Names) \cup DistinctSeqsOf(Names2)
 MCPrecs == {<<6>>, <<0>>, <<3, 1>>, <<1, 4, 2>>, <<2, 2, 2, 2>>}
 =============================================================================
